@@ -4,14 +4,16 @@ pub mod c01;
 pub mod c05;
 pub mod c08;
 pub mod c09;
+pub mod c10;
 pub mod c11;
 pub mod c12;
 pub mod c13;
+pub mod c14;
 pub mod c15;
 pub mod c16;
 
 use crate::runner::Property;
 
 pub fn all() -> Vec<&'static dyn Property> {
-    vec![&c01::C01, &c05::C05, &c08::C08, &c09::C09, &c11::C11, &c12::C12, &c13::C13, &c15::C15, &c16::C16]
+    vec![&c01::C01, &c05::C05, &c08::C08, &c09::C09, &c10::C10, &c11::C11, &c12::C12, &c13::C13, &c14::C14, &c15::C15, &c16::C16]
 }
